@@ -39,6 +39,11 @@ func (c *cluster) quiescent() (bool, string) {
 		if closing && !srvDone {
 			return false, fmt.Sprintf("handler of stream %d>%d to return", s.from, s.to)
 		}
+		if s.serverStarted && !srvDone && srvRecvs == 0 {
+			// the follower's Replicate handler has been launched but has not started reading yet (a crash or a role
+			// change of that node right now would race with its first lines)
+			return false, fmt.Sprintf("handler of stream %d>%d to start", s.from, s.to)
+		}
 		if !srvDone && !closing && nDel > 0 && (srvRecvs < nDel+1 || !ackedDelivered) {
 			return false, fmt.Sprintf("follower %d to acknowledge append %d of stream from %d", s.to, nDel, s.from)
 		}
@@ -1282,6 +1287,9 @@ func (c *cluster) stepSnapshot(l, f int) bool {
 		return true
 	}
 	lenBefore := int64(len(c.shadowLog(f)))
+	c.mu.Lock()
+	termBefore := n.term
+	c.mu.Unlock()
 	ss := c.newSnapStream(l, f, g.term, g.ctx)
 	ss.srvCtx = metadata.NewIncomingContext(ss.srvCtx, metadata.Pairs(constant.MetadataNamespace, namespace,
 		constant.MetadataShardId, fmt.Sprintf("%d", shardId), constant.MetadataTerm, fmt.Sprintf("%d", g.term)))
@@ -1312,6 +1320,13 @@ func (c *cluster) stepSnapshot(l, f int) bool {
 	// the follower now holds the state after entries 0..ack of the leader's log, and nothing in its WAL
 	src := c.shadowLog(l)
 	c.mu.Lock()
+	if termBefore != k.term {
+		// handleSnapshot accepts the chunks' term when the node has none (a node that was deleted, or never a member):
+		// a deposed leader's cursor can re-populate a node that a swap removed; the model's followers only take data
+		// from the leader of the term they were fenced in
+		c.stats["model-gap:snapshot-adopts-term-on-termless-node"]++
+		c.skipModel("a snapshot was installed on a node that was not in the sender's term (it had no term: deleted or never a member)")
+	}
 	if lenBefore > ack+1 {
 		// the install replaces a longer log by the shorter snapshot: the model has no action that shrinks a log this way
 		c.stats["snapshot:shrinks-log(unmapped)"]++
